@@ -40,6 +40,9 @@ theorem Ext.trans {a b c : Out K} (h1 : Ext a b) (h2 : Ext b c) : Ext a c := by
   obtain ⟨⟨v2, e2⟩, ⟨t2, f2⟩⟩ := h2
   exact ⟨⟨v1 ++ v2, by rw [e2, e1, List.append_assoc]⟩, ⟨t1 ++ t2, by rw [f2, f1, List.append_assoc]⟩⟩
 
+theorem Ext.len_le {o o' : Out K} (h : Ext o o') : o.verts.length ≤ o'.verts.length := by
+  obtain ⟨⟨vs, e⟩, _⟩ := h; rw [e, List.length_append]; omega
+
 theorem Ext.addVertex (o : Out K) (d : VData K) : Ext o (o.addVertex d) := ⟨⟨[d], rfl⟩, ⟨[], by simp [Out.addVertex]⟩⟩
 theorem Ext.addTris (o : Out K) (t : List Stroke.Tri) : Ext o (o.addTris t) := ⟨⟨[], by simp [Out.addTris]⟩, ⟨t, rfl⟩⟩
 
@@ -72,6 +75,17 @@ theorem TriIn.ext {o o' : Out K} (h : Ext o o') {S : List (P K)} {t : Stroke.Tri
 theorem TriIn.mono {o : Out K} {S S' : List (P K)} (hS : ∀ p ∈ S, p ∈ S') {t : Stroke.Tri} (hT : TriIn o S t) : TriIn o S' t := by
   obtain ⟨p1, p2, p3, a, b, c, d1, d2, d3⟩ := hT
   exact ⟨p1, p2, p3, a, b, c, hS _ d1, hS _ d2, hS _ d3⟩
+
+/-- the three vertices of `t` were emitted at positions that belong to `S` or lie on the circle of squared radius
+`r2` around `c` (the triangles of a round join's fan) -/
+def TriFan (o : Out K) (S : List (P K)) (c : P K) (r2 : K) (t : Stroke.Tri) : Prop :=
+  ∃ p1 p2 p3, PosAt o t.1 p1 ∧ PosAt o t.2.1 p2 ∧ PosAt o t.2.2 p3
+    ∧ (p1 ∈ S ∨ (p1 - c).sqLen = r2) ∧ (p2 ∈ S ∨ (p2 - c).sqLen = r2) ∧ (p3 ∈ S ∨ (p3 - c).sqLen = r2)
+
+theorem TriFan.ext {o o' : Out K} (h : Ext o o') {S : List (P K)} {c : P K} {r2 : K} {t : Stroke.Tri}
+    (hT : TriFan o S c r2 t) : TriFan o' S c r2 t := by
+  obtain ⟨p1, p2, p3, a, b, c', d⟩ := hT
+  exact ⟨p1, p2, p3, a.ext h, b.ext h, c'.ext h, d⟩
 
 theorem posAt_new (o : Out K) (d : VData K) (hn : o.nextId = o.verts.length) :
     PosAt (o.addVertex d) o.nextId d.position := by
@@ -165,6 +179,171 @@ theorem joinInterior_ids (i : JoinIds) (a b : Bool) : ∀ t ∈ joinInterior i a
     · rcases ht with rfl | rfl <;> simp
   · simp at ht
 
+/-! ## round joins: the arc fan -/
+
+/-- the hypothesis under which round joins are admitted: `cos² + sin² = 1` -/
+def RoundOK (e : Env K) : Prop :=
+  e.o.join ≠ .round ∨ ∀ x : K, Transc.cos x * Transc.cos x + Transc.sin x * Transc.sin x = 1
+
+/-- a vertex position that is one of the join's own vertices or lies on the join's circle -/
+def FanPt (S : List (P K)) (c : P K) (r2 : K) (p : P K) : Prop := p ∈ S ∨ (p - c).sqLen = r2
+
+/-- `tessellate_arc`: only vertices on the circle around `position_on_path` with radius `half_width`, only triangles
+between such vertices and the two end vertices -/
+theorem arc_shape (hcs : ∀ x : K, Transc.cos x * Transc.cos x + Transc.sin x * Transc.sin x = 1)
+    (S : List (P K)) (c : P K) (hw : K) (n : Nat) :
+    ∀ (a0 a1 : K) (va vb : Nat) (d : VData K) (o : Out K) (pa pb : P K),
+      d.positionOnPath = c → d.halfWidth = hw → o.nextId = o.verts.length →
+      PosAt o va pa → FanPt S c (hw * hw) pa → PosAt o vb pb → FanPt S c (hw * hw) pb →
+      Ext o (tessellateArc a0 a1 va vb n d o)
+      ∧ (tessellateArc a0 a1 va vb n d o).nextId = (tessellateArc a0 a1 va vb n d o).verts.length
+      ∧ ∃ ts, (tessellateArc a0 a1 va vb n d o).tris = o.tris ++ ts
+          ∧ ∀ t ∈ ts, TriFan (tessellateArc a0 a1 va vb n d o) S c (hw * hw) t := by
+  induction n with
+  | zero =>
+    intro a0 a1 va vb d o pa pb _ _ hn _ _ _ _
+    exact ⟨Ext.refl _, hn, [], by simp [tessellateArc], by simp⟩
+  | succ n ih =>
+    intro a0 a1 va vb d o pa pb hc hh hn hpa hfa hpb hfb
+    simp only [tessellateArc]
+    set mid := (a0 + a1) * half with hmid
+    set d1 : VData K := { d with normal := ⟨Transc.cos mid, Transc.sin mid⟩ } with hd1
+    have hpos : (d1.position - c).sqLen = hw * hw := by
+      show ((d.positionOnPath + (⟨Transc.cos mid, Transc.sin mid⟩ : P K).smul d.halfWidth) - c).sqLen = _
+      rw [hc, hh]
+      have := hcs mid
+      simp only [geom]
+      linear_combination (hw * hw) * this
+    set o1 := (o.addVertex d1).addTri (va, o.nextId, vb) with ho1
+    have hx1 : Ext o o1 := ⟨⟨[d1], rfl⟩, ⟨[(va, o.nextId, vb)], rfl⟩⟩
+    have hn1 : o1.nextId = o1.verts.length := by simp [ho1, Out.addVertex, Out.addTri, hn]
+    have hpv : PosAt o1 o.nextId d1.position := by
+      refine ⟨d1, ?_, rfl⟩
+      simp [ho1, Out.addVertex, Out.addTri, hn]
+    have hfv : FanPt S c (hw * hw) d1.position := Or.inr hpos
+    obtain ⟨x2, n2, ts2, e2, t2⟩ := ih a0 mid va o.nextId d1 o1 pa d1.position hc hh hn1 (hpa.ext hx1) hfa hpv hfv
+    obtain ⟨x3, n3, ts3, e3, t3⟩ := ih mid a1 o.nextId vb d1 (tessellateArc a0 mid va o.nextId n d1 o1) d1.position pb hc hh n2
+      (hpv.ext x2) hfv ((hpb.ext hx1).ext x2) hfb
+    refine ⟨(hx1.trans x2).trans x3, n3, [(va, o.nextId, vb)] ++ ts2 ++ ts3, ?_, ?_⟩
+    · rw [e3, e2]
+      show o.tris ++ [(va, o.nextId, vb)] ++ ts2 ++ ts3 = _
+      simp [List.append_assoc]
+    · intro t ht
+      rcases List.mem_append.mp ht with h | h
+      · rcases List.mem_append.mp h with h | h
+        · simp only [List.mem_singleton] at h
+          subst h
+          exact ⟨pa, d1.position, pb, ((hpa.ext hx1).ext x2).ext x3, (hpv.ext x2).ext x3, ((hpb.ext hx1).ext x2).ext x3,
+            hfa, hfv, hfb⟩
+        · exact (t2 t h).ext x3
+      · exact t3 t h
+
+/-- `tessellate_round_cap`: the middle vertex and two fans; every new vertex on the circle around `center`
+(`edgeNormal` normalises to a unit vector), only triangles between such vertices and the two given ones -/
+theorem roundCap_shape (hcs : ∀ x : K, Transc.cos x * Transc.cos x + Transc.sin x * Transc.sin x = 1)
+    (S : List (P K)) (center : P K) (radius : K) (sn en : P K) (va vb : Nat) (tol : K) (isStart : Bool)
+    (d : VData K) (o : Out K) (pa pb : P K) (hunit : (normalize en).sqLen = 1)
+    (hn : o.nextId = o.verts.length)
+    (hpa : PosAt o va pa) (hfa : FanPt S center (radius * radius) pa)
+    (hpb : PosAt o vb pb) (hfb : FanPt S center (radius * radius) pb) :
+    Ext o (tessellateRoundCap center radius sn va vb en tol isStart d o)
+    ∧ (tessellateRoundCap center radius sn va vb en tol isStart d o).nextId
+        = (tessellateRoundCap center radius sn va vb en tol isStart d o).verts.length
+    ∧ ∃ ts, (tessellateRoundCap center radius sn va vb en tol isStart d o).tris = o.tris ++ ts
+        ∧ ∀ t ∈ ts, TriFan (tessellateRoundCap center radius sn va vb en tol isStart d o) S center (radius * radius) t := by
+  unfold tessellateRoundCap
+  split_ifs with hlt
+  · exact ⟨Ext.refl _, hn, [], by simp, by simp⟩
+  · unfold roundCapBody
+    simp only []
+    set d1 : VData K := { d with positionOnPath := center, halfWidth := radius, side := capFirstSide isStart en sn, normal := normalize en } with hd1
+    have hpos : (d1.position - center).sqLen = radius * radius := by
+      show ((center + (normalize en).smul radius) - center).sqLen = _
+      simp only [geom] at hunit ⊢
+      linear_combination (radius * radius) * hunit
+    set o1 := (o.addVertex d1).addTri (va, o.nextId, vb) with ho1
+    have hx1 : Ext o o1 := ⟨⟨[d1], rfl⟩, ⟨[(va, o.nextId, vb)], rfl⟩⟩
+    have hn1 : o1.nextId = o1.verts.length := by simp [ho1, Out.addVertex, Out.addTri, hn]
+    have hpv : PosAt o1 o.nextId d1.position := by
+      refine ⟨d1, ?_, rfl⟩
+      simp [ho1, Out.addVertex, Out.addTri, hn]
+    have hfv : FanPt S center (radius * radius) d1.position := Or.inr hpos
+    obtain ⟨x2, n2, ts2, e2, t2⟩ := arc_shape hcs S center radius _ _ _ va o.nextId d1 o1 pa d1.position rfl rfl hn1
+      (hpa.ext hx1) hfa hpv hfv
+    obtain ⟨x3, n3, ts3, e3, t3⟩ := arc_shape hcs S center radius
+      (numSubdivisions (ArcConv.angleAngleTo (ArcConv.angleFromXAxis sn) (ArcConv.angleFromXAxis en)) radius tol)
+      (ArcConv.angleFromXAxis sn + ArcConv.angleAngleTo (ArcConv.angleFromXAxis sn) (ArcConv.angleFromXAxis en))
+      (ArcConv.angleFromXAxis sn + ArcConv.angleAngleTo (ArcConv.angleFromXAxis sn) (ArcConv.angleFromXAxis en)
+        + ArcConv.angleAngleTo (ArcConv.angleFromXAxis sn) (ArcConv.angleFromXAxis en))
+      o.nextId vb ({ d1 with side := (capFirstSide isStart en sn).opposite } : VData K) _ d1.position pb rfl rfl n2
+      (hpv.ext x2) hfv ((hpb.ext hx1).ext x2) hfb
+    refine ⟨(hx1.trans x2).trans x3, n3, (va, o.nextId, vb) :: (ts2 ++ ts3), ?_, ?_⟩
+    · rw [e3, e2]
+      show o.tris ++ [(va, o.nextId, vb)] ++ ts2 ++ ts3 = _
+      simp [List.append_assoc]
+    · intro t ht
+      rcases List.mem_cons.mp ht with h | h
+      · subst h
+        exact ⟨pa, d1.position, pb, ((hpa.ext hx1).ext x2).ext x3, (hpv.ext x2).ext x3, ((hpb.ext hx1).ext x2).ext x3,
+          hfa, hfv, hfb⟩
+      · rcases List.mem_append.mp h with h | h
+        · exact (t2 t h).ext x3
+        · exact t3 t h
+
+/-- `tessellate_round_join` on one side (if requested): a fan over the side's two vertices -/
+theorem roundJoinIf_shape (c : Bool)
+    (hcs : c = true → ∀ x : K, Transc.cos x * Transc.cos x + Transc.sin x * Transc.sin x = 1) (j : Join K) (isNeg : Bool) (tol : K) (d : VData K) (o : Out K) (S : List (P K)) (pp pn : P K)
+    (hpop : d.positionOnPath = j.position) (hhw : d.halfWidth = j.halfWidth) (hn : o.nextId = o.verts.length)
+    (hP : PosAt o (if isNeg then j.neg else j.pos).prevVertex pp) (hpS : pp ∈ S)
+    (hN : PosAt o (if isNeg then j.neg else j.pos).nextVertex pn) (hnS : pn ∈ S) :
+    Ext o (roundJoinIf c j isNeg tol d o)
+    ∧ (roundJoinIf c j isNeg tol d o).nextId = (roundJoinIf c j isNeg tol d o).verts.length
+    ∧ ∃ ts, (roundJoinIf c j isNeg tol d o).tris = o.tris ++ ts
+        ∧ ∀ t ∈ ts, TriFan (roundJoinIf c j isNeg tol d o) S j.position (j.halfWidth * j.halfWidth) t := by
+  cases c with
+  | false => exact ⟨Ext.refl _, hn, [], by simp [roundJoinIf], by simp⟩
+  | true =>
+    unfold roundJoinIf tessellateRoundJoin
+    simp only [if_true]
+    cases isNeg with
+    | true =>
+      simp only [if_true] at hP hN ⊢
+      exact arc_shape (hcs rfl) S j.position j.halfWidth _ _ _ _ _ _ _ pn pp hpop hhw hn hN (Or.inl hnS) hP (Or.inl hpS)
+    | false =>
+      simp only [Bool.false_eq_true, if_false] at hP hN ⊢
+      exact arc_shape (hcs rfl) S j.position j.halfWidth _ _ _ _ _ _ _ pp pn hpop hhw hn hP (Or.inl hpS) hN (Or.inl hnS)
+
+/-- `tessellate_join`, any join kind: the interior triangles, then (round joins) fans over the sides that need a join -/
+theorem tessJoin_shape (j : Join K)
+    (hcs : j.round = true → ∀ x : K, Transc.cos x * Transc.cos x + Transc.sin x * Transc.sin x = 1) (tol : K) (d : VData K) (o : Out K) (S : List (P K)) (p1 p2 p3 p4 : P K)
+    (hpop : d.positionOnPath = j.position) (hhw : d.halfWidth = j.halfWidth) (hn : o.nextId = o.verts.length)
+    (h1 : PosAt o j.pos.prevVertex p1) (h2 : PosAt o j.pos.nextVertex p2)
+    (h3 : PosAt o j.neg.prevVertex p3) (h4 : PosAt o j.neg.nextVertex p4)
+    (m1 : p1 ∈ S) (m2 : p2 ∈ S) (m3 : p3 ∈ S) (m4 : p4 ∈ S) :
+    Ext o (tessellateJoin j tol d o)
+    ∧ (tessellateJoin j tol d o).nextId = (tessellateJoin j tol d o).verts.length
+    ∧ ∃ ts, (tessellateJoin j tol d o).tris = o.tris ++ joinInterior j.ids (needsJoinPos j) (needsJoinNeg j) ++ ts
+      ∧ ∀ t ∈ ts, TriFan (tessellateJoin j tol d o) S j.position (j.halfWidth * j.halfWidth) t := by
+  unfold tessellateJoin
+  set o1 := o.addTris (joinInterior j.ids (needsJoinPos j) (needsJoinNeg j)) with ho1
+  have hx1 : Ext o o1 := Ext.addTris _ _
+  have hn1 : o1.nextId = o1.verts.length := hn
+  have hc1 : ∀ b : Bool, (b && j.round) = true → ∀ x : K, Transc.cos x * Transc.cos x + Transc.sin x * Transc.sin x = 1 := by
+    intro b hb; simp only [Bool.and_eq_true] at hb; exact hcs hb.2
+  obtain ⟨x2, n2, ts2, e2, t2⟩ := roundJoinIf_shape (needsJoinPos j && j.round) (hc1 _) j false tol d o1 S p1 p2 hpop hhw hn1
+    (h1.ext hx1) m1 (h2.ext hx1) m2
+  obtain ⟨x3, n3, ts3, e3, t3⟩ := roundJoinIf_shape (needsJoinNeg j && j.round) (hc1 _) j true tol d
+    (roundJoinIf (needsJoinPos j && j.round) j false tol d o1) S p3 p4 hpop hhw n2
+    ((h3.ext hx1).ext x2) m3 ((h4.ext hx1).ext x2) m4
+  refine ⟨(hx1.trans x2).trans x3, n3, ts2 ++ ts3, ?_, ?_⟩
+  · rw [e3, e2]
+    show o.tris ++ joinInterior j.ids (needsJoinPos j) (needsJoinNeg j) ++ ts2 ++ ts3 = _
+    simp [List.append_assoc]
+  · intro t ht
+    rcases List.mem_append.mp ht with h | h
+    · exact (t2 t h).ext x3
+    · exact t3 t h
+
 /-- what one join leaves behind -/
 structure JoinShape (st : St K) (prev j1 j2 : EP K) (o' : Out K) : Prop where
   ext : Ext st.out o'
@@ -185,6 +364,7 @@ structure JoinShape (st : St K) (prev j1 j2 : EP K) (o' : Out K) : Prop where
   trisNew : ∃ ts, o'.tris = st.out.tris ++ ts ∧ ∀ t ∈ ts,
     (st.buf.count > 2 ∧ TriIn o' [sNext prev.neg, sNext prev.pos, sPrev j1.pos, sPrev j1.neg] t)
     ∨ TriIn o' [sPrev j1.neg, sNext j1.neg, sPrev j1.pos, sNext j1.pos] t
+    ∨ TriFan o' [sPrev j1.neg, sNext j1.neg, sPrev j1.pos, sNext j1.pos] j1.position (j1.halfWidth * j1.halfWidth) t
 
 theorem baseVertices_hw (j : EP K) (d : VData K) (o : Out K) :
     (baseVertices j d o).1.halfWidth = j.halfWidth ∧ (baseVertices j d o).1.foldPos = j.foldPos
@@ -195,7 +375,7 @@ theorem joinSidesFw_hw (ix : Lyon.StrokeQuad.Ix K) (prev join next : EP K) (ml v
   unfold joinSidesFw; simp only []; split_ifs <;> rfl
 
 /-- **emission shape of one join** (fixed width, fresh endpoint, no fold) -/
-theorem fwJoin_shape {e : Env K} (hj : e.o.join ≠ .round) (st : St K) (prev join next : EP K) (hf : Fresh e join)
+theorem fwJoin_shape {e : Env K} (hj : RoundOK e) (st : St K) (prev join next : EP K) (hf : Fresh e join)
     (hfp : join.foldPos = false) (hfn : join.foldNeg = false)
     (hnf : noFoldAt e prev.position join.position next.position)
     (hw0 : e.hwFw ≠ 0) (hn : st.out.nextId = st.out.verts.length)
@@ -203,8 +383,6 @@ theorem fwJoin_shape {e : Env K} (hj : e.o.join ≠ .round) (st : St K) (prev jo
       ∧ PosAt st.out prev.neg.nextVertex (sNext prev.neg) ∧ PosAt st.out prev.pos.nextVertex (sNext prev.pos)) :
     ∃ j2 o', fwJoin e st prev join next = (commitSt st prev j2 o', next)
       ∧ JoinShape st prev (joinSidesFw e.ix prev join next e.o.miterLimit e.hwFw) j2 o' := by
-  have hr : (join.lineJoin == Lyon.StrokeQuad.Join.round) = false := by
-    rw [hf.lj]; cases h : e.o.join <;> simp_all
   have hgeo : fwGeo prev join next e.o.miterLimit join.halfWidth
       = fwGeo (EP.mk' prev.position e.hwFw nan e.o.join (.endpoint 0) false)
           (EP.mk' join.position e.hwFw nan e.o.join (.endpoint 0) false)
@@ -225,17 +403,37 @@ theorem fwJoin_shape {e : Env K} (hj : e.o.join ≠ .round) (st : St K) (prev jo
   obtain ⟨i1, i2, i3, i4, i5, i6⟩ := baseVertices_ids j1 dd st.out (f1.trans hfp) (f2.trans hfn)
   obtain ⟨q1, q2, q3, q4, q5, q6, q7, q8, q9, q10, q11, q12⟩ := baseVertices_pos j1 dd st.out hddp hddh hj1w hn
   obtain ⟨_, b2, b3⟩ := baseVertices_verts j1 dd st.out
-  have hr2 : ((baseVertices j1 dd st.out).1.lineJoin == Lyon.StrokeQuad.Join.round) = false := by
-    rw [b3, s3]; exact hr
-  obtain ⟨t1, t2⟩ := edgeAndJoin_tris e.o.tolerance st.buf.count prev (baseVertices j1 dd st.out).1 dd
-    (baseVertices j1 dd st.out).2 hr2
-  have tv := edgeAndJoin_verts e.o.tolerance st.buf.count prev (baseVertices j1 dd st.out).1 dd
-    (baseVertices j1 dd st.out).2 hr2
   obtain ⟨hhw2, hfp2, hfn2⟩ := baseVertices_hw j1 dd st.out
-  generalize hj2 : (baseVertices j1 dd st.out).1 = j2 at i1 i2 i3 i6 q3 q4 q5 q6 q7 q8 q9 q10 q11 q12 b2 t1 t2 tv hfp2 hfn2 hhw2
-  generalize ho1 : (baseVertices j1 dd st.out).2 = o1 at i1 i4 i5 q1 q2 q3 q4 q5 q6 t1 t2 tv
-  generalize ho' : edgeAndJoin e.o.tolerance st.buf.count prev j2 dd o1 = o' at t1 t2 tv
-  have hext1 : Ext o1 o' := Ext.of_eq tv ⟨_, by rw [t1, List.append_assoc]⟩
+  generalize hj2 : (baseVertices j1 dd st.out).1 = j2 at i1 i2 i3 i6 q3 q4 q5 q6 q7 q8 q9 q10 q11 q12 b2 b3 hfp2 hfn2 hhw2
+  generalize ho1 : (baseVertices j1 dd st.out).2 = o1 at i1 i4 i5 q1 q2 q3 q4 q5 q6
+  -- the edge triangles, then `tessellate_join`
+  obtain ⟨o1', ho1'⟩ : ∃ o1' : Out K, o1' = (if st.buf.count > 2 then o1.addTris (addEdgeTriangles prev.ids j2.ids) else o1) :=
+    ⟨_, rfl⟩
+  have hx1' : Ext o1 o1' := by rw [ho1']; split_ifs; exact Ext.addTris _ _; exact Ext.refl _
+  have hn1' : o1'.nextId = o1'.verts.length := by rw [ho1']; split_ifs <;> exact q2
+  have ht1' : o1'.tris = o1.tris ++ (if st.buf.count > 2 then addEdgeTriangles prev.ids j2.ids else []) := by
+    rw [ho1']; split_ifs <;> simp [Out.addTris]
+  have hround : j2.toJoin.round = true → ∀ x : K, Transc.cos x * Transc.cos x + Transc.sin x * Transc.sin x = 1 := by
+    intro hr
+    rcases hj with h | h
+    · exfalso
+      have : (j2.lineJoin == Lyon.StrokeQuad.Join.round) = true := hr
+      rw [b3, s3, hf.lj] at this
+      cases hh : e.o.join <;> simp_all
+    · exact h
+  obtain ⟨hxj, hnj, ts, ets, tfan⟩ := tessJoin_shape j2.toJoin hround e.o.tolerance dd o1'
+    [sPrev j1.neg, sNext j1.neg, sPrev j1.pos, sNext j1.pos] (sPrev j1.pos) (sNext j1.pos) (sPrev j1.neg) (sNext j1.neg)
+    (by show dd.positionOnPath = j2.position; rw [b2]; exact hddp) (by show dd.halfWidth = j2.halfWidth; rw [hhw2]; exact hddh)
+    hn1' (q5.ext hx1') (q6.ext hx1') (q3.ext hx1') (q4.ext hx1') (by simp) (by simp) (by simp) (by simp)
+  have hedge : edgeAndJoin e.o.tolerance st.buf.count prev j2 dd o1 = tessellateJoin j2.toJoin e.o.tolerance dd o1' := by
+    rw [ho1']; rfl
+  generalize ho' : edgeAndJoin e.o.tolerance st.buf.count prev j2 dd o1 = o' at hedge
+  rw [← hedge] at hxj hnj ets tfan
+  have hext1 : Ext o1 o' := hx1'.trans hxj
+  have t1 : o'.tris = o1.tris ++ (if st.buf.count > 2 then addEdgeTriangles prev.ids j2.ids else [])
+      ++ joinInterior j2.ids (needsJoinPos j2.toJoin) (needsJoinNeg j2.toJoin) ++ ts := by
+    rw [ets, ht1']; rfl
+  have hle : o1.nextId ≤ o'.nextId := by rw [hnj, q2]; exact hext1.len_le
   have hfp2' : j2.foldPos = false := by rw [hfp2]; exact f1.trans hfp
   have hfn2' : j2.foldNeg = false := by rw [hfn2]; exact f2.trans hfn
   refine ⟨j2, o', ?_, ?_⟩
@@ -244,7 +442,7 @@ theorem fwJoin_shape {e : Env K} (hj : e.o.join ≠ .round) (st : St K) (prev jo
     simp only [show (baseVertex join.src join.position join.halfWidth nan : VData K).halfWidth = join.halfWidth from rfl, hj1]
     subst ho' ho1 hj2
     rw [edd]; rfl
-  · refine ⟨q1.trans hext1, by rw [t2, tv]; exact q2, by rw [t2]; exact i1, q3.ext hext1, q4.ext hext1, q5.ext hext1,
+  · refine ⟨q1.trans hext1, hnj, i1.mono hle, q3.ext hext1, q4.ext hext1, q5.ext hext1,
       q6.ext hext1, ⟨q7, q8, q9⟩, ⟨q10, q11, q12⟩, b2, hhw2, ?_, ?_, ?_, ?_⟩
     · intro h3
       obtain ⟨⟨p1, p2, pg, p4, p5⟩, pa, pb⟩ := hprev h3
@@ -295,8 +493,15 @@ theorem fwJoin_shape {e : Env K} (hj : e.o.join ≠ .round) (st : St K) (prev jo
       · have : PosAt o' j2.pos.nextVertex j1.pos.next := by simpa [sNext, hps] using q6.ext hext1
         exact this
     · refine ⟨(if st.buf.count > 2 then addEdgeTriangles prev.ids j2.ids else [])
-          ++ joinInterior j2.ids (needsJoinPos j2.toJoin) (needsJoinNeg j2.toJoin), by rw [t1, i4, List.append_assoc], ?_⟩
+          ++ joinInterior j2.ids (needsJoinPos j2.toJoin) (needsJoinNeg j2.toJoin) ++ ts,
+        by rw [t1, i4]; simp [List.append_assoc], ?_⟩
       intro t ht
+      rcases List.mem_append.mp ht with ht | ht
+      swap
+      · right; right
+        have := tfan t ht
+        rw [show j2.toJoin.position = j1.position from b2, show j2.toJoin.halfWidth = j1.halfWidth from hhw2] at this
+        exact this
       rcases List.mem_append.mp ht with ht | ht
       · left
         by_cases h3 : st.buf.count > 2
@@ -314,7 +519,7 @@ theorem fwJoin_shape {e : Env K} (hj : e.o.join ≠ .round) (st : St K) (prev jo
           · exact ⟨h3, _, _, _, pa.ext hx, pb.ext hx, q5.ext hext1, by simp, by simp, by simp⟩
           · exact ⟨h3, _, _, _, pa.ext hx, q5.ext hext1, q3.ext hext1, by simp, by simp, by simp⟩
         · rw [if_neg h3] at ht; simp at ht
-      · right
+      · right; left
         obtain ⟨c1, c2, c3⟩ := joinInterior_ids _ _ _ t ht
         have hP : ∀ id, (id = j2.ids.posPrev ∨ id = j2.ids.posNext ∨ id = j2.ids.negPrev ∨ id = j2.ids.negNext) →
             ∃ p, PosAt o' id p ∧ p ∈ [sPrev j1.neg, sNext j1.neg, sPrev j1.pos, sNext j1.pos] := by
